@@ -432,7 +432,7 @@ def run(ctx):
                 if ctx.tier == "quick" and meth == "hadamard_grad" and m.startswith("var"):
                     continue
                 items.append(("ps", c, m, meth))
-    for m in (("var Z1", "expval Z0@X1, expval Y1") if ctx.tier == "quick" else ("expval Z0", "probs[0,1]", "var Z1", "expval Z0@X1, expval Y1")):
+    for m in ("var Z1", "expval Z0@X1, expval Y1"):  # (expval Z0 / probs[0,1] on the control wire of the 4-term gate: z3 unknown at 120 s - outside)
         items.append(("ps", "H.CRX.RY", m, "param_shift(shifts=(pi/4,3pi/4)) on the 4-term gate"))
         
     for c in CIRCUITS:
